@@ -478,14 +478,17 @@ example : usesRefused (.binop .mod (.name "x") (.name "k")) = true ∧
 
 /-! ### the `compartments` option and the species attributes (findings F-C08-14 / -15 / -16, repaired) -/
 
-/-- `write(model, file, compartments=…)` writes, whatever the option, the components `exportModel` writes when the
-    species references avoid a set of names that contains the model's (the compartment ids are in it since F-C08-19);
-    without the option-dependent names that set is `m.names` and the document is `exportModel m`'s. -/
+/-- `write(model, file, compartments=…)` writes, whatever the option, the components `exportModel` writes for the model
+    with its function arguments replaced by the declared ids (`escArgs`; the identity on a well-named model), when the
+    species references avoid a set of names that contains the model's (the compartment ids are in it since F-C08-19). -/
 theorem C08_write_doc_is_export (m : PyModel) (o : Option (List (String × Rat))) (dc : SDocC)
     (h : writeModel m o = .ok dc) :
-    ∃ t, (∀ n ∈ m.names, n ∈ t) ∧ exportModelFrom t m = .ok dc.doc ∧ exportModel m = exportModelFrom m.names m := by
+    ∃ t, (∀ n ∈ m.names, n ∈ t) ∧ exportModelFrom t m.escArgs = .ok dc.doc ∧
+      (wellNamed m = true → m.escArgs = m) ∧ exportModel m = exportModelFrom m.names m := by
   obtain ⟨cs, _, he⟩ := writeModel_ok h
-  exact ⟨refTaken m cs, names_sub_refTaken m cs, (exportModelC_doc he).1, rfl⟩
+  refine ⟨refTaken m.escArgs cs, ?_, (exportModelC_doc he).1, escArgs_of_wellNamed, rfl⟩
+  intro n hn
+  exact names_sub_refTaken m.escArgs cs n (by rw [(escArgs_names m).1]; exact hn)
 
 /-- **Every successful `write` round-trips**, whatever the `compartments` option: for a well-named model the document
     written holds every component under its name, and its SBML reading gives the model's initial values, derived values,
@@ -496,7 +499,8 @@ theorem C08_write_roundtrip (I : Interp) (m : PyModel) (o : Option (List (String
     (∀ n v, pyInit I m m.fuel n = some v → docInit I dc.doc dc.doc.fuel n = some v) ∧
     (∀ st n v, pyValue I m st m.fuel n = some v → docValue I dc.doc st dc.doc.fuel n = some v) ∧
     (∀ st x v, (∀ n q, st.lookup n = some q → n ∈ m.names) → pyRhs I m st x = some v → docRhs I dc.doc st x = some v) := by
-  obtain ⟨t, hsub, hx, _⟩ := C08_write_doc_is_export m o dc h
+  obtain ⟨t, hsub, hx, hid, _⟩ := C08_write_doc_is_export m o dc h
+  rw [hid hw] at hx
   have hE := exported_of_exportFrom hsub hw hx
   refine ⟨exported_species_keyFrom hw hx, ?_, ?_, ?_⟩
   · intro n v hv
@@ -529,8 +533,8 @@ theorem C08_species_compartment_declared (m : PyModel) (o : Option (List (String
       rw [hcs]
       exact speciesCompartment_mem hcomp
   · intro hv
-    cases hvars : m.vars with
-    | nil => exact absurd hvars hv
+    cases hvars : m.escArgs.vars with
+    | nil => exact absurd ((escArgs_vars_nil m).mp hvars) hv
     | cons v vs =>
       rw [hvars] at hcomp
       obtain ⟨c, rfl⟩ := speciesCompartment_some hcomp
@@ -593,16 +597,16 @@ theorem C08_no_compartment_refused (m : PyModel) (hv : m.vars ≠ []) :
   have hl : speciesCompartmentLit = none := rfl
   simp only [writeModel, chooseCompartments, hr, List.any_nil, Bool.and_false, Bool.false_eq_true, if_false,
     bind, Except.bind, exportModelC]
-  cases h1 : foldE exportParam SDoc.empty m.params with
+  cases h1 : foldE exportParam SDoc.empty m.escArgs.params with
   | error e => exact ⟨e, rfl⟩
   | ok d1 =>
     simp only []
-    cases h2 : foldE (fun d kv => exportRule d kv.1 kv.2) d1 m.derived with
+    cases h2 : foldE (fun d kv => exportRule d kv.1 kv.2) d1 m.escArgs.derived with
     | error e => exact ⟨e, rfl⟩
     | ok d2 =>
       simp only []
-      cases hvars : m.vars with
-      | nil => exact absurd hvars hv
+      cases hvars : m.escArgs.vars with
+      | nil => exact absurd ((escArgs_vars_nil m).mp hvars) hv
       | cons v vs => exact ⟨.valueError "SBML species need a compartment, but `compartments` is empty", by simp [speciesCompartment, hl]⟩
 
 /-- `_free_reference` terminates: within `len(taken) + 1` rounds it finds a name that is not taken, so the name of
@@ -633,6 +637,7 @@ theorem C08_tables :
     nonnegSide = .product ∧ unknownCallRaises = true ∧ arityChecked = true ∧ logWithBase = true ∧
     iaSetterExists = true ∧ libParents = pyLibs ∧ binaryNumpyOnly = true ∧ bodyFirstReturn = true ∧
     refFresh = true ∧ refSuffix = "ref" ∧ refAvoidsCompartments = true ∧
+    iaSymbolDeclared = true ∧ mathUsesIds = true ∧ prefixRefId = prefixRule ∧ prefixRefSpecies = prefixVar ∧
     exportOrder = [.params, .derivedParams, .vars, .derivedVars, .rxns] ∧
     speciesHosu = true ∧ speciesInitAmount = true ∧ speciesCompartmentLit = none ∧
     defaultCompartmentId = "compartment" ∧ defaultCompartmentSize = 1 ∧ defaultCompartmentFresh = true ∧
